@@ -305,6 +305,12 @@ def build(rng, scale=1):
         g.add("strings", "r := %s\n\treturn out(r)" % c, PRE_STR)
     for c in ['bytes.Index(b, c) >= 0', 'bytes.Index(b, c) != -1', 'bytes.IndexAny(b, "ab") >= 0', "bytes.IndexRune(b, 'a') != -1", 'bytes.Replace(b, c, c, -1)']:
         g.add("bytesw", "r := %s\n\treturn out(r)" % c, PRE_BS)
+    # bytes are not runes: comparisons of the byte- and rune-searching functions on text with multi-byte characters
+    for c in ['strings.IndexByte(s, 0xc3) >= 0', 'strings.IndexByte(s, 0xe9) != -1', 'strings.IndexByte(s+"é", 0xa9) >= 0', "strings.IndexByte(s, 'a') != -1", 'strings.LastIndexByte(s+"é", 0xc3) >= 0',
+              'strings.IndexByte(s+"\xff", 0xff) >= 0', "strings.IndexRune(s+t, 'é') >= 0", "strings.IndexRune(s+\"\\xe9\", 'é') != -1", 'strings.IndexRune(s+"\xff", 0xfffd) >= 0', 'strings.IndexAny(s+"é", "\xc3") >= 0']:
+        g.add("bytes-vs-runes", "r := %s\n\treturn out(r)" % c, PRE_STR)
+    for c in ['bytes.IndexByte(b, 0xc3) >= 0', 'bytes.IndexByte(append(b, "é"...), 0xe9) != -1', 'bytes.IndexByte(append(b, "é"...), 0xa9) >= 0', "bytes.IndexByte(b, 'a') != -1", "bytes.IndexRune(append(b, 0xe9), 'é') >= 0"]:
+        g.add("bytes-vs-runes", "r := %s\n\treturn out(r)" % c, PRE_BS)
     for c in ["0 == x", "1 != x", "nil != e.P", "nil == e.Err", '"a" == s', "0 == e.Fi()", "2 < x", "nil == e.Fp()"]:
         g.add("yoda", "r := %s\n\treturn out(r)" % c, PRE_INT + PRE_STR)
     g.add("strcut", "var k, v string\n\ti := strings.Index(s, \"=\")\n\te.t(\"mid\")\n\tk, v = s[:i], s[i+1:]\n\treturn out(k, v)", PRE_STR)
